@@ -100,6 +100,12 @@ func DialContext(ctx context.Context, addr, mycall, password string) (net.Conn, 
 		return nil, err
 	}
 
+	// The login must not outlive the dial deadline.
+	if deadline, ok := ctx.Deadline(); ok {
+		conn.SetDeadline(deadline)
+		defer conn.SetDeadline(time.Time{})
+	}
+
 	// Log in to telnet server
 	reader := bufio.NewReader(conn)
 L:
